@@ -25,6 +25,8 @@ MANIFEST = {
 def check(seed, tier):
     rep = Report("C17", seed, tier)
     core.build_harness()
+    # mode M: the specification modules against hand-derived expectations on hand-written projects
+    core.mc(rep, "mc/MC_Walk.tla", "MC_Walk.cfg", workers=1)
     meta = core.gen("C17", seed, tier, shards=8)
     core.validate_traces(rep, TRACE_SPEC, meta["files"], parallel=int(os.environ.get("VERIF_PAR", 4 if tier == "quick" else 8)), timeout=3600)
 
@@ -40,7 +42,7 @@ def check(seed, tier):
         "distinct_nontrivial": meta["distinct_nontrivial"],
         "rule": "a case is one random program run through cwe_367 and cwe_243 (2 events: checker, project, configuration, warnings, panic); "
                 "non-trivial = at least one of the two checkers reports a warning; distinct = distinct case hashes",
-        "samples": [str(s)[:1500] for s in meta["samples"][:2]], "exhaustive": False, "trusted_base": TRUSTED,
+        "samples": [str(s)[:1500] for s in meta["samples"][:2]], "exhaustive": False, "mc_runs": rep.cov.get("mc_runs"), "trusted_base": TRUSTED,
     }, ["programs: 1-3 functions with 2-8 blocks, extern calls biased to access/open/chroot/chdir, 12% of the calls without return site",
         "CWE367 pairs: check != use; names absent from the binary occur",
         "extern symbol names are pairwise different"])
